@@ -208,7 +208,20 @@ func c19RoundTrip(t *rapid.T) {
 		pool = quotedNames
 	}
 	d.table = rapid.SampledFrom(pool).Draw(t, "table")
-	base := hx.GenTable(t, hx.TableOpt{MinCols: 1, MaxCols: 5, AllowDerived: true, Wide: true, Rows: rapid.IntRange(1, 25)})
+	maxCols := 5
+	if rapid.IntRange(0, 4).Draw(t, "wide") == 0 {
+		maxCols = 14 // two-digit placeholder numbers
+		for i := 0; i < 8; i++ {
+			pool = append(pool, fmt.Sprintf("w%d", i))
+		}
+	}
+	base := hx.GenTable(t, hx.TableOpt{MinCols: 1, MaxCols: maxCols, AllowDerived: true, Wide: true, Rows: rapid.IntRange(1, 25)})
+	if maxCols > 5 {
+		target := rapid.IntRange(10, 14).Draw(t, "widecols")
+		for len(base.Cols) < target {
+			base.Cols = append(base.Cols, hx.Col{Name: fmt.Sprintf("x%d", len(base.Cols)), Kind: hx.KInt, I: make([]int, base.N())})
+		}
+	}
 	base = renameCols(t, base, pool)
 	// string/enum columns not entirely null
 	for ci, c := range base.Cols {
